@@ -1,30 +1,39 @@
 #!/bin/bash
-# tools/sweep_mutants.sh [tier]  — runs every seeded change against the quick check of its property (and of the
-# other properties named in EXTRA) in a scratch worktree and writes seeded/RESULTS.md.
-TIER=${1:-quick}
+# tools/sweep_mutants.sh [tier] [jobs]  — runs every seeded change against the check of its property (and of the
+# other properties named in EXTRA) in scratch worktrees (never /repo) and writes seeded/RESULTS.md.
+TIER=${1:-quick}; JOBS=${2:-3}
 cd /verif
-WT=/tmp/wt/sweep-$$
-git -C /repo worktree add -q --detach $WT HEAD || exit 2
-declare -A EXTRA=( [C16-A]="C15" [C05-B]="C11" [C14-B]="C13" [C09-B]="C10" [C06-B]="C04" )
+declare -A EXTRA=( [C16-A]="C15" [C05-B]="C11" [C14-B]="C13" [C06-r4A]="C17" [C06-r4B]="C05" [C05-r4B]="C11" )
+TMP=$(mktemp -d /tmp/wt/sweep.XXXXXX)
+one() {
+  d=$1; n=$(basename $d); id=${n%%-*}
+  p=$d/patch.diff; [ -f $d/patch.rebased.diff ] && p=$d/patch.rebased.diff
+  r=$(tools/try_mutant.sh $p $id $TIER 2>&1 | tail -1)
+  case "$r" in *"exit 1") res="caught";; *"exit 0") res="MISSED";; *) res="n/a ($r)";; esac
+  other=""
+  for x in ${EXTRA[$n]:-}; do
+    r2=$(tools/try_mutant.sh $p $x $TIER 2>&1 | tail -1)
+    case "$r2" in *"exit 1") other="$other $x: caught";; *"exit 0") other="$other $x: missed";; *) other="$other $x: n/a";; esac
+  done
+  need=$(python3 -c "import json;print(json.load(open('$d/meta.json')).get('needs_to_manifest','')[:220].replace('|','/').replace('\n',' '))")
+  echo "| $n | $id | $res | $other | $need |" > $TMP/$n.row
+  echo "$n $res $other"
+}
+export -f one; export TIER TMP; export -A EXTRA 2>/dev/null
+# (associative arrays cannot be exported: re-declare inside the subshells)
+ls -d seeded/C*-*[AB] | xargs -P $JOBS -I{} bash -c 'declare -A EXTRA=( [C16-A]="C15" [C05-B]="C11" [C14-B]="C13" [C06-r4A]="C17" [C06-r4B]="C05" [C05-r4B]="C11" ); one {}'
 out=seeded/RESULTS.md
 {
 echo "# Seeded changes versus the checks ($(date -u +%F), tier $TIER, /repo $(git -C /repo rev-parse --short HEAD))"
 echo
+echo "Each change is applied to a scratch worktree of /repo and the check of its property is run against it (tools/try_mutant.sh)."
+echo "caught = the check exits 1 with a VIOLATION line; MISSED = it exits 0."
+echo
 echo "| change | property | check result | other checks | what it needs to manifest |"
 echo "|---|---|---|---|---|"
+cat $(ls $TMP/*.row | sort)
+echo
+echo "caught: $(cat $TMP/*.row | grep -c '| caught |')  missed: $(cat $TMP/*.row | grep -c '| MISSED |')  n/a: $(cat $TMP/*.row | grep -c 'n/a (')"
 } > $out
-for d in seeded/C*-*[AB]; do
-  n=$(basename $d); id=${n%-*}
-  p=$d/patch.diff; [ -f $d/patch.rebased.diff ] && p=$d/patch.rebased.diff
-  r=$(tools/try_mutant.sh $p $id $TIER $WT 2>&1 | tail -1)
-  case "$r" in *"exit 1") res="caught";; *"exit 0") res="MISSED";; *) res="n/a ($r)";; esac
-  other=""
-  for x in ${EXTRA[$n]:-}; do
-    r2=$(tools/try_mutant.sh $p $x $TIER $WT 2>&1 | tail -1)
-    case "$r2" in *"exit 1") other="$other $x: caught";; *"exit 0") other="$other $x: missed";; *) other="$other $x: n/a";; esac
-  done
-  need=$(python3 -c "import json;print(json.load(open('$d/meta.json')).get('needs_to_manifest','')[:220].replace('|','/').replace('\n',' '))")
-  echo "| $n | $id | $res | $other | $need |" >> $out
-  echo "$n $res $other"
-done
-git -C /repo worktree remove --force $WT
+rm -rf $TMP
+tail -1 $out
